@@ -29,7 +29,7 @@ func newExec(w *World, ss *SpecSet, fn *ssa.Function, spec *FuncSpec) *Exec {
 		heapInfos: map[string]*heapInfo{}, obCount: map[string]int{}, assumed: map[string]bool{},
 		modset: map[string][]modLoc{}, closureIDs: map[string]*Closure{}, cardDone: map[string]bool{},
 		typeTags: map[string]int{}, boxAx: map[string]bool{}, usedSpecs: map[string]*FuncSpec{},
-		wsCache: map[*ssa.Function]map[string]bool{}, globalByRef: map[string]*ssa.Global{}, epochFrames: map[int]*epochFrame{}}
+		wsCache: map[*ssa.Function]map[string]bool{}, globalByRef: map[string]*ssa.Global{}, epochFrames: map[int]*epochFrame{}, boxClosures: map[string]*Closure{}}
 	return e
 }
 
@@ -86,6 +86,16 @@ func verifyFunction(w *World, ss *SpecSet, fn *ssa.Function, spec *FuncSpec) (re
 		fr.entryParams[fv.Name()] = v
 		// a captured variable: the contract may name it directly (its content)
 		fr.captured[fv.Name()] = v
+	}
+	// logical variables of the contract: arbitrary values
+	for _, gp := range spec.GhostParams {
+		env := e.specEnv(fr, st, nil)
+		t := env.resolveType(gp.Type)
+		if t == nil {
+			e.specErrors = append(e.specErrors, "unknown type of ghostparam "+gp.Name)
+			continue
+		}
+		fr.entryParams[gp.Name] = e.havocVal(st, t, "ghost_"+gp.Name)
 	}
 	// modifies
 	menv := e.specEnv(fr, st, nil)
